@@ -116,7 +116,8 @@ func runC10(c *run.Ctx) {
 	nt := c.N(150, 4000)
 	per := c.N(2, 1000)
 	defects := []string{"unknown-field", "undeclared-arg-alone", "undeclared-arg-beside", "undeclared-arg-replacing", "missing-required-arg",
-		"unknown-directive", "misplaced-directive", "undefined-inline-type", "undefined-fragment-type", "undefined-spread"}
+		"unknown-directive", "misplaced-directive", "undefined-inline-type", "undefined-fragment-type", "undefined-spread",
+		"unknown-directive-on-fragment-definition", "misplaced-directive-on-fragment-definition", "unknown-directive-on-operation", "required-arg-null-variable"}
 	injected := 0
 	for i := 0; i < nt && !c.TooMany(); i++ {
 		kinds := []string{"iface", "any", "reflect"}
@@ -238,6 +239,77 @@ func runC10(c *run.Ctx) {
 						t.Dirs = append(t.Dirs, d)
 					}
 					offender = "deprecated"
+				case "unknown-directive-on-fragment-definition", "misplaced-directive-on-fragment-definition":
+					spr, isSp := sel.(*model.Spread)
+					if !isSp {
+						continue
+					}
+					fr := ec.DC.Doc.Frag(spr.Name)
+					if fr == nil {
+						continue
+					}
+					d := model.DirUse{Name: "nope_dir_zz"}
+					if defect == "misplaced-directive-on-fragment-definition" {
+						d = model.DirUse{Name: "deprecated"}
+					}
+					fr.Dirs = append(fr.Dirs, d)
+					// the definition may stand before or after the operation that spreads it
+					ec.DC.Doc.FragsFirst = (p+i)%2 == 0
+					offender = d.Name
+				case "unknown-directive-on-operation":
+					if p > 0 {
+						continue // one per document is enough: the position plays no role
+					}
+					for _, o := range ec.DC.Doc.Ops {
+						if o.Name == ec.DC.OpName || len(ec.DC.Doc.Ops) == 1 {
+							if o.Shorthand {
+								o.Shorthand = false
+							}
+							o.Dirs = append(o.Dirs, model.DirUse{Name: "nope_dir_zz"})
+						}
+					}
+					offender = "nope_dir_zz"
+				case "required-arg-null-variable":
+					// the required argument is written, but through a variable that is not supplied / is null
+					if !isField || fd == nil {
+						continue
+					}
+					req := ""
+					var rt *model.TypeRef
+					for _, a := range fd.Args {
+						if a.Type.NonNull && !a.HasDefault {
+							req, rt = a.Name, a.Type
+						}
+					}
+					if req == "" {
+						continue
+					}
+					var op *model.Op
+					for _, o := range ec.DC.Doc.Ops {
+						if o.Name == ec.DC.OpName || len(ec.DC.Doc.Ops) == 1 {
+							op = o
+						}
+					}
+					if op == nil || op.Shorthand {
+						continue
+					}
+					vn := "zzNullVar"
+					vt := rt
+					if (p+i)%2 == 0 {
+						vt = rt.Nullable() // declared nullable and supplied as null
+						ec.DC.Vars[vn] = nil
+					} // else: declared non-null and simply not supplied
+					op.Vars = append(op.Vars, &model.VarDef{Name: vn, Type: vt})
+					var keep []model.Arg
+					for _, a := range fld.Args {
+						if a.Name != req {
+							keep = append(keep, a)
+						}
+					}
+					fld.Args = append(keep, model.Arg{Name: req, Value: model.VarRef(vn)})
+					fld.Alias = c10Key
+					offender = req
+					noCallField = fld.Name
 				case "undefined-inline-type":
 					in, isIn := sel.(*model.Inline)
 					if !isIn {
@@ -306,6 +378,14 @@ func runC10(c *run.Ctx) {
 				}
 				// the statement asks for the offender to be named for undefined fields and arguments
 				needName := defect == "unknown-field" || strings.HasPrefix(defect, "undeclared-arg") || defect == "missing-required-arg"
+				if defect == "required-arg-null-variable" {
+					// the error may name the argument or the variable
+					for _, m := range out.Msgs {
+						if strings.Contains(m, "zzNullVar") {
+							named = true
+						}
+					}
+				}
 				if !named && reached && needName {
 					rep("no error message names the offender")
 					continue
@@ -426,15 +506,27 @@ func c10Menagerie(c *run.Ctx) int {
 		impls := s.PossibleTypes("Animal")
 		x := own[impls[r.Intn(len(impls))]] // the field only one implementer defines
 		f := func(n string, sels ...model.Sel) *model.Field { return &model.Field{Name: n, Sels: sels} }
+		argMode := i%3 == 2 // instead: an ARGUMENT only one implementer declares (Dog.name(limit:) - the interface and the others have none)
+		var xf model.Sel = f(x)
+		lacks := func(tn string) bool { return s.Type(tn).Field(x) == nil }
+		if argMode {
+			x = "limit"
+			xf = &model.Field{Name: "name", Alias: "nm", Args: []model.Arg{{Name: "limit", Value: int64(3)}}}
+			lacks = func(tn string) bool { return s.Type(tn).Field("name").Arg("limit") == nil }
+		}
+		pathEnd := x
+		if argMode {
+			pathEnd = "nm"
+		}
 		doc := &model.Doc{}
 		var inner []model.Sel
 		switch r.Intn(3) {
 		case 0:
-			inner = []model.Sel{f("name"), f(x)}
+			inner = []model.Sel{f("name"), xf}
 		case 1:
-			inner = []model.Sel{&model.Inline{Cond: "Animal", Sels: []model.Sel{f(x)}}, f("name")}
+			inner = []model.Sel{&model.Inline{Cond: "Animal", Sels: []model.Sel{xf}}, f("name")}
 		default:
-			doc.Frags = []*model.FragDef{{Name: "F", Cond: "Animal", Sels: []model.Sel{f("name"), f(x)}}}
+			doc.Frags = []*model.FragDef{{Name: "F", Cond: "Animal", Sels: []model.Sel{f("name"), xf}}}
 			inner = []model.Sel{&model.Spread{Name: "F"}}
 		}
 		roots := []string{"pets", "anyPet", "a1", "a2", "grid"}
@@ -450,7 +542,11 @@ func c10Menagerie(c *run.Ctx) int {
 		out := Do(h, Request{Text: text, OpName: "Q", Entry: i}, nil)
 		done++
 		c.Eval("menagerie|"+text+fmt.Sprint(describeGraph(g)), true)
-		c.Bucket("defect", "field-of-sibling-implementer")
+		if argMode {
+			c.Bucket("defect", "argument-of-sibling-implementer")
+		} else {
+			c.Bucket("defect", "field-of-sibling-implementer")
+		}
 		c.Bucket("container", "heterogeneous-abstract")
 		c.Bucket("backend", "reflect")
 		rep := func(diag string) {
@@ -478,8 +574,8 @@ func c10Menagerie(c *run.Ctx) int {
 					walk(e, append(append([]interface{}{}, path...), j))
 				}
 			case *model.Node:
-				p := pathKey(append(append([]interface{}{}, path...), x))
-				if s.Type(t.Type).Field(x) == nil {
+				p := pathKey(append(append([]interface{}{}, path...), pathEnd))
+				if lacks(t.Type) {
 					lacking++
 					if have[p] == 0 && bad == "" {
 						bad = fmt.Sprintf("object of type %s at %s does not define %q but no error addresses %s", t.Type, pathKey(path), x, p)
